@@ -23,6 +23,8 @@ Groups of cases (one forked worker call per case; `g` selects the group):
       (found by walking counter messages); raw and DER must verify under SPSDK.
   sp  signature providers built from password-protected key files (pass-phrase given / typed at the
       prompt through a harness seam) x route x hash x padding: must sign like the unencrypted key.
+  km  key-matching helpers of spsdk/crypto/utils.py over every ordered list of one key per family.
+  rg  data regions (-r) of nxpcrypto signature create/verify: every documented form, singly and in pairs.
   cl  the nxpcrypto command line on every key: key convert (PEM/DER/RAW, --puk, RAW read back),
       key verify, signature create/verify (hash given or default, NXP/DER, PSS, encrypted key).
 
@@ -1513,8 +1515,287 @@ def w_sigprov(case: dict) -> dict:
 
 
 # ---------------------------------------------------------------------------------------------
+# group km: the key-matching helpers of spsdk/crypto/utils.py
 
-WORKERS = {"cv": w_conv, "rt": w_roundtrip, "ct": w_cert, "sv": w_sign, "fl": w_flips, "sh": w_shape, "cl": w_cli, "sp": w_sigprov}
+KM_FAMILIES = ("rsa2048", "secp256r1", "secp384r1", "secp521r1")
+
+
+def w_keymatch(case: dict) -> dict:
+    """get_matching_key_id_from_signature / get_matching_key_id over every ordered list (length 1-4, no repeats) of
+    one key per family, for a signature (a provider) of every member and of every non-member; algorithm left to the
+    keys' defaults and given explicitly; oracle: the index of the signing key, SPSDKError for a non-member.
+    Also extract_public_key(s) on files and get_hash_type_from_signature_size."""
+    import itertools
+
+    from spsdk.crypto.signature_provider import PlainFileSP
+    from spsdk.crypto.utils import (extract_public_key, extract_public_keys, get_hash_type_from_signature_size,
+                                    get_matching_key_id, get_matching_key_id_from_signature)
+
+    seed = case["seed"]
+    names = [key_names(f)[0] for f in KM_FAMILIES]
+    pubs = {n: spsdk_priv(n).get_public_key() for n in names}
+    viol: list = []
+    cnt = {"km_calls": 0, "km_lists": 0}
+    msg = core.seeded_bytes(seed, "km", 48)
+    # reference-made (deterministic) signatures of every signer: (alg or None, variant) -> bytes
+    sigs: dict = {}
+    for n in names:
+        k = idx()[n]
+        dh = DEFAULT_HASH[k.get("curve", "rsa")]
+        for alg in (None,) + HASHES:
+            h = alg or dh
+            for scheme in (("v15", "pss") if k["type"] == "rsa" else ("raw", "der")):
+                sigs[(n, alg, scheme)] = ref_sign(n, h, scheme, hashlib.new(h, msg).digest(), seed, f"km|{n}|{h}|{scheme}")
+    providers = {n: PlainFileSP(fixtures.key_path(n, True, "pem")) for n in names}
+    lists = [list(p) for ln in range(1, len(names) + 1) for p in itertools.permutations(names, ln)]
+    for lst in lists[case["lo"]:case["hi"]]:
+        cnt["km_lists"] += 1
+        plist = [pubs[n] for n in lst]
+        mixed = len({DEFAULT_HASH[idx()[n].get("curve", "rsa")] for n in lst}) > 1
+        for signer in names:
+            want = lst.index(signer) if signer in lst else None
+            st, got = call(get_matching_key_id, plist, providers[signer])
+            cnt["km_calls"] += 1
+            sym = None
+            if want is None:
+                sym = None if st == "spsdk" else f"non-member-{'accepted' if st == 'ok' else st}"
+            elif st != "ok":
+                sym = "member-refused" if st == "spsdk" else st
+            elif got != want:
+                sym = "wrong-index"
+            if sym:
+                viol.append(("C08.key-matching", f"get_matching_key_id:{sym}", f"keys {lst}, provider of {signer}: {st} {got}, expected {want}"))
+            for (n, alg, scheme), sig in sigs.items():
+                if n != signer:
+                    continue
+                kw = {"pss_padding": scheme == "pss"} if idx()[signer]["type"] == "rsa" else {}
+                st, got = call(get_matching_key_id_from_signature, plist, msg, sig, henum(alg) if alg else None, **kw)
+                cnt["km_calls"] += 1
+                sym = None
+                if want is None:
+                    sym = None if st == "spsdk" else f"non-member-{'accepted' if st == 'ok' else st}"
+                elif st != "ok":
+                    sym = "member-refused" if st == "spsdk" else st
+                elif got != want:
+                    sym = "wrong-index"
+                if sym:
+                    viol.append(("C08.key-matching",
+                                 f"get_matching_key_id_from_signature:{sym}:{'explicit' if alg else 'default'}-algorithm:"
+                                 f"{'mixed' if mixed else 'uniform'}-default-hashes",
+                                 f"keys {lst}, {scheme} signature of {signer} ({alg or 'its default hash'}): {st} {got}, expected {want}"))
+    if case["lo"] == 0:
+        # the other public-key helpers of the module
+        for n in names:
+            exp = pub_numbers_expected(n)
+            files = [fixtures.key_path(n, True, "pem"), fixtures.key_path(n, True, "der"),
+                     fixtures.key_path(n, False, "pem"), fixtures.key_path(n, False, "der")]
+            for f in files:
+                st, got = call(extract_public_key, f)
+                cnt["km_calls"] += 1
+                if st != "ok" or pub_numbers_got(got) != exp:
+                    viol.append(("C08.key-matching", f"extract_public_key:{st if st != 'ok' else 'wrong-numbers'}", f"{f}: {got}"))
+            st, got = call(extract_public_keys, files)
+            if st != "ok" or [pub_numbers_got(g) for g in got] != [exp] * len(files):
+                viol.append(("C08.key-matching", f"extract_public_keys:{st if st != 'ok' else 'wrong-numbers'}", n))
+        st, got = call(extract_public_key, os.path.join(fixtures.DIR, "keys", "index.json"))
+        if st != "spsdk":
+            viol.append(("C08.key-matching", f"extract_public_key:not-a-key:{st}", str(got)))
+        for size in range(0, 140):
+            want_h = {64: "sha256", 96: "sha384", 132: "sha512"}.get(size)
+            st, got = call(get_hash_type_from_signature_size, size)
+            cnt["km_calls"] += 1
+            if (want_h is None and st != "spsdk") or (want_h is not None and (st != "ok" or got.label != want_h)):
+                viol.append(("C08.key-matching", "get_hash_type_from_signature_size", f"{size}: {st} {got}"))
+    return {"viol": core.dedupe(viol), "count": cnt, "distinct": [f"km|{case['lo']}"]}
+
+
+# ---------------------------------------------------------------------------------------------
+# group rg: data regions of `nxpcrypto signature create/verify -r`
+
+RG_LEN = 24
+RG_SLICES = ("[:16]", "[0x10:0x14]", "[-5:]", "[3:-1]", "[-3:-1]", "[5:5]", "[10:1000]", "[:-24]", "[-1000:4]", "[:]",
+             "[-1:]", "[:-1]", "[-1:0]", "[7:3]", "[0:10:2]", "[::-1]", "[-1:-6:-2]")
+RG_INDICES = ("[0]", "[23]", "[-1]", "[-2]", "[-24]", "[0x10]", "[5]", "[-0x3]")
+RG_REFUSED = ("[24]", "[-25]", "[1000]", "[0x100]", "[a:b]", "[1;2]", "[]")
+RG_PAIR_SET = ("[:16]", "[-5:]", "[3:-1]", "[5:5]", "[0]", "[23]", "[-1]", "[-24]", "[0x10]")
+
+
+def region_select(data: bytes, region: str):
+    """Own reading of the documented region syntax ("similar to Python's list indices syntax": [1] one byte, [:20],
+    [0x10:0x20], [-20:]): returns the selected bytes, or None where the form must be refused (a single index outside
+    the data, something that is not a number)."""
+    body = region.replace("[", "").replace("]", "")
+    parts = body.split(":")
+    try:
+        nums = [int(x, 0) if x.strip() else None for x in parts]
+    except ValueError:
+        return None
+    if len(parts) == 1:
+        if nums[0] is None or not -len(data) <= nums[0] < len(data):
+            return None
+        return data[nums[0]:nums[0] + 1] if nums[0] != -1 else data[-1:]
+    if len(parts) in (2, 3):
+        if len(parts) == 3 and nums[2] == 0:
+            return None
+        return data[slice(*nums)]
+    return None
+
+
+def regions_select(data: bytes, regions) -> Optional[bytes]:
+    out = b""
+    for r in regions:
+        sel = region_select(data, r)
+        if sel is None:
+            return None
+        out += sel
+    return out
+
+
+def w_regions(case: dict) -> dict:
+    from click.testing import CliRunner
+    from spsdk.apps.nxpcrypto import cut_off_data_regions, main
+    from spsdk.exceptions import SPSDKError
+
+    seed, part = case["seed"], case["part"]
+    viol: list = []
+    cnt = {"rg_function_calls": 0, "rg_cli_invocations": 0, "rg_refused": 0, "rg_step_forms_refused": 0}
+    data = core.seeded_bytes(seed, "rg", RG_LEN)
+    forms = RG_SLICES + RG_INDICES + RG_REFUSED
+
+    def form_class(regs) -> str:
+        kinds = []
+        for r in regs:
+            body = r.strip("[]")
+            kinds.append("index" if ":" not in body else ("step-slice" if body.count(":") == 2 else "slice"))
+        return "+".join(kinds)
+
+    def judge(regs, st: str, got: Any, where: str) -> None:
+        want = regions_select(data, regs)
+        has_step = any(r.count(":") == 2 for r in regs)
+        if st == "spsdk":
+            cnt["rg_refused"] += 1
+            if want is not None and not has_step:
+                viol.append(("C08.cli-regions", f"{where}:{form_class(regs)}:valid-region-refused", f"{regs}: {got}"))
+            elif has_step:
+                cnt["rg_step_forms_refused"] += 1  # [a:b:s] is not among the documented forms: refusing it is fine
+            return
+        if st != "ok":
+            viol.append(("C08.cli-regions", f"{where}:{form_class(regs)}:{st}", f"{regs}: {got}"))
+        elif want is None:
+            viol.append(("C08.cli-regions", f"{where}:{form_class(regs)}:invalid-region-accepted", f"{regs} -> {got!r}"))
+        elif got != want:
+            viol.append(("C08.cli-regions", f"{where}:{form_class(regs)}:wrong-bytes",
+                         f"{regs} of {data.hex()}: got {bytes(got).hex()}, the documented syntax selects {want.hex()}"))
+
+    def function_agrees(regs) -> bool:
+        want = regions_select(data, regs)
+        st, got = call(cut_off_data_regions, data, list(regs))
+        if want is None or any(r.count(":") == 2 for r in regs):
+            return st == "spsdk" or (st == "ok" and want is not None and got == want)
+        return st == "ok" and got == want
+
+    if part == "function":
+        # a pair is only reported when both members are right on their own (the single form carries the finding)
+        bad_single = {a for a in forms if not function_agrees((a,))}
+        for regs in [(a,) for a in forms] + [(a, b) for a in forms for b in forms]:
+            cnt["rg_function_calls"] += 1
+            if len(regs) == 2 and (regs[0] in bad_single or regs[1] in bad_single):
+                cnt["rg_inherited"] = cnt.get("rg_inherited", 0) + 1
+                continue
+            st, got = call(cut_off_data_regions, data, list(regs))
+            judge(regs, st, got, "cut_off_data_regions")
+        st, got = call(cut_off_data_regions, data, [])
+        if st != "ok" or got != data:
+            viol.append(("C08.cli-regions", "cut_off_data_regions:no-region", f"{st}"))
+        return {"viol": core.dedupe(viol), "count": cnt, "distinct": ["rg|function"]}
+
+    # through the command line: create, independent verification, verify, verify after changing bytes
+    name = key_names("secp256r1")[0]
+    h = DEFAULT_HASH["secp256r1"]
+    runner = CliRunner()
+    tmpdir = tempfile.mkdtemp(prefix="c08-rg-", dir=os.environ.get("VERIF_WORKDIR") or None)
+    distinct: list = []
+    try:
+        files = {}
+        for i in [None] + list(range(RG_LEN)):
+            d = data if i is None else flip(data, 8 * i + 3)
+            files[i] = os.path.join(tmpdir, f"d{i}.bin")
+            open(files[i], "wb").write(d)
+
+        def run(*args: str):
+            cnt["rg_cli_invocations"] += 1
+            res = runner.invoke(main, list(args))
+            if res.exception is not None and not isinstance(res.exception, SystemExit):
+                return ("spsdk" if isinstance(res.exception, SPSDKError) else type(res.exception).__name__), str(res.exception)[:200]
+            return ("ok" if res.exit_code == 0 else "spsdk"), res.output
+
+        if part == "cli-single":
+            sets = [(a,) for a in forms][case["lo"]:case["hi"]]
+        else:
+            sets = [(a, b) for a in RG_PAIR_SET for b in RG_PAIR_SET][case["lo"]:case["hi"]]
+        for n, regs in enumerate(sets):
+            rargs = [x for r in regs for x in ("-r", r)]
+            sigf = os.path.join(tmpdir, f"s{n}.bin")
+            distinct.append(f"rg|{'|'.join(regs)}")
+            if not function_agrees(regs):
+                # cut_off_data_regions itself deviates on these regions: reported by the "function" case; what the
+                # command line does with them is a consequence, not a second finding
+                cnt["rg_inherited"] = cnt.get("rg_inherited", 0) + 1
+                continue
+            st, out = run("signature", "create", "-k", fixtures.key_path(name, True, "pem"), "-i", files[None],
+                          "-o", sigf, "-e", "NXP", *rargs)
+            want = regions_select(data, regs)
+            has_step = any(r.count(":") == 2 for r in regs)
+            fc = form_class(regs)
+            if st != "ok" or not os.path.exists(sigf):
+                if st not in ("ok", "spsdk"):
+                    viol.append(("C08.cli-regions", f"signature-create:{fc}:{st}", f"{regs}: {out}"))
+                elif want is not None and not has_step:
+                    viol.append(("C08.cli-regions", f"signature-create:{fc}:valid-region-refused", f"{regs}: {out[-200:]}"))
+                else:
+                    cnt["rg_refused"] += 1
+                    # the verifying side must refuse the same regions too
+                    st2, out2 = run("signature", "verify", "-k", fixtures.key_path(name, False, "pem"), "-i", files[None],
+                                    "-s", fixtures.key_path(name, False, "der"), *rargs)
+                    if st2 == "ok" and "IS matching" in out2:
+                        viol.append(("C08.cli-regions", f"signature-verify:{fc}:invalid-region-accepted", f"{regs}"))
+                continue
+            if want is None:
+                viol.append(("C08.cli-regions", f"signature-create:{fc}:invalid-region-accepted", f"{regs}"))
+                continue
+            sig = open(sigf, "rb").read()
+            if not ref_verify(name, h, "raw", hashlib.new(h, want).digest(), sig):
+                viol.append(("C08.cli-regions", f"signature-create:{fc}:signature-not-over-the-selected-bytes",
+                             f"{regs}: the signature does not verify over {want.hex()} (data {data.hex()})"))
+                continue
+            # signature verify: unchanged data, then one changed byte at a time
+            covered = [i for i in range(RG_LEN) if regions_select(flip(data, 8 * i + 3), regs) != want]
+            if part == "cli-single":
+                positions = list(range(RG_LEN))
+            else:
+                uncovered = [i for i in range(RG_LEN) if i not in covered]
+                positions = sorted(set(covered[:1] + covered[-1:] + uncovered[:1] + [RG_LEN - 1, 0]))
+            for i in [None] + positions:
+                st, out = run("signature", "verify", "-k", fixtures.key_path(name, False, "pem"), "-i", files[i],
+                              "-s", sigf, *rargs)
+                d2 = data if i is None else flip(data, 8 * i + 3)
+                w2 = ref_verify(name, h, "raw", hashlib.new(h, regions_select(d2, regs)).digest(), sig)
+                if st != "ok":
+                    viol.append(("C08.cli-regions", f"signature-verify:{fc}:{'refused' if st == 'spsdk' else st}", f"{regs}: {out[-200:]}"))
+                    break
+                got = "IS matching" in out
+                if got != w2:
+                    what = "unchanged data" if i is None else f"byte {i} changed ({'covered' if i in covered else 'not covered'})"
+                    viol.append(("C08.cli-regions", f"signature-verify:{fc}:{'accepts-changed-covered-byte' if got else 'rejects-valid'}",
+                                 f"{regs}, {what}: {out.strip()!r}"))
+    finally:
+        shutil.rmtree(tmpdir, ignore_errors=True)
+    return {"viol": core.dedupe(viol), "count": cnt, "distinct": distinct}
+
+
+# ---------------------------------------------------------------------------------------------
+
+WORKERS = {"cv": w_conv, "rt": w_roundtrip, "ct": w_cert, "sv": w_sign, "fl": w_flips, "sh": w_shape, "cl": w_cli, "sp": w_sigprov, "km": w_keymatch, "rg": w_regions}
 
 
 def w_dispatch(case: dict) -> dict:
@@ -1638,6 +1919,16 @@ def build_cases(tier: str, seed: int) -> list[dict]:
     for fam in (("rsa2048",) if quick else ("rsa2048", "rsa3072", "rsa4096")) + ("secp256r1", "secp384r1", "secp521r1"):
         for fenc in ("PEM", "DER"):
             cases.append({"g": "sp", "key": key_names(fam)[0], "fenc": fenc, "seed": seed})
+    # km: 64 ordered key lists in 4 chunks; rg: region forms (function: all singles and ordered pairs; command line: all
+    # singles, ordered pairs over RG_PAIR_SET)
+    for lo in range(0, 64, 16):
+        cases.append({"g": "km", "lo": lo, "hi": lo + 16, "seed": seed})
+    cases.append({"g": "rg", "part": "function", "seed": seed})
+    nforms = len(RG_SLICES + RG_INDICES + RG_REFUSED)
+    for lo in range(0, nforms, 8):
+        cases.append({"g": "rg", "part": "cli-single", "lo": lo, "hi": lo + 8, "seed": seed})
+    for lo in range(0, len(RG_PAIR_SET) ** 2, 27):
+        cases.append({"g": "rg", "part": "cli-pair", "lo": lo, "hi": lo + 27, "seed": seed})
     # sv
     for n in tier_keys("sv", quick):
         k = idx()[n]
@@ -1693,6 +1984,15 @@ def run(ctx: core.Ctx) -> None:
         "+ the unencrypted file as base line x route {get_signature_provider(local_file_key), InteractivePlainFileSP, "
         "get_signature_provider(sp_cfg type=file), (sp_cfg type=interactive_file), nxpcrypto signature create -k} x every hash x {v1.5, PSS | ECDSA}: "
         "the signature must verify under the reference with exactly the configured hash and padding; wrong pass-phrase refused; "
+        "[km] get_matching_key_id / get_matching_key_id_from_signature over every ordered list (length 1-4, no repeats) of one "
+        "key per family {RSA-2048, P-256, P-384, P-521} x signature/provider of every member and non-member x algorithm {left to "
+        "the keys' defaults, each hash} x {v1.5, PSS | raw, DER}: index of the signing key, SPSDKError for a non-member; "
+        "extract_public_key(s) on files, get_hash_type_from_signature_size on 0..139; "
+        f"[rg] data regions of nxpcrypto signature create/verify -r on {RG_LEN} bytes: {len(RG_SLICES)} slice forms, {len(RG_INDICES)} single "
+        f"indices, {len(RG_REFUSED)} forms to refuse; cut_off_data_regions on every form and every ordered pair; command line on every "
+        f"form and the ordered pairs over {len(RG_PAIR_SET)} forms: own selection of the bytes -> reference verification of the CLI "
+        "signature over exactly those bytes, signature verify on the unchanged data and after changing one byte (singles: every "
+        "byte; pairs: first/last covered, one uncovered, first/last byte); "
         "[cv] every (len r, msb r, len s, msb s) class per curve through ECDSASignature.get_encoding/parse/"
         "export, the constructor, serialize_signature and SignatureProvider.get_signature x provider output {DER, raw} x "
         "requested {default, NXP, DER}. A case is distinct/non-trivial when it is a different point of these products that "
@@ -1708,7 +2008,7 @@ def run(ctx: core.Ctx) -> None:
     for c in cases:
         per_group[c["g"]] = per_group.get(c["g"], 0) + 1
     ctx.cov["cases_per_group"] = per_group
-    for g in ("cv", "sh", "fl", "rt", "ct", "cl", "sp", "sv"):
+    for g in ("cv", "sh", "fl", "rt", "ct", "cl", "sp", "km", "rg", "sv"):
         for c in cases:
             if c["g"] == g:
                 ctx.sample(c)
@@ -1719,7 +2019,7 @@ def run(ctx: core.Ctx) -> None:
     done: dict = {}
     # The determinism double-run covers the head of the queue (cv cases: fully deterministic).  SPSDK-made ECDSA/PSS
     # signatures are random (DESIGN 1.2: not owned); an sv/cl record that carries such bytes is not double-run.
-    det = 3 if cases and cases[0]["g"] not in ("sv", "cl", "sp") else 0
+    det = 3 if cases and cases[0]["g"] not in ("sv", "cl", "sp", "rg") else 0
     for case, res in ctx.pool_map(w_dispatch, cases, timeout=300, chunksize=1, check_det=det):
         rec = case
         if isinstance(res, dict) and res.get("aux"):
@@ -1734,7 +2034,8 @@ def run(ctx: core.Ctx) -> None:
     c = ctx.counters
     ctx.cov["distinct_nontrivial"] = (len(ctx.distinct) + c.get("cv_classes", 0) + c.get("fl_flips", 0)
                                       + c.get("sh_signatures", 0) * 2 + c.get("sv_negative", 0))
-    ctx.cov["evaluations"] = (c.get("cv_calls", 0) + c.get("rt_entry_points", 0) + c.get("ct_parses", 0) + c.get("cl_invocations", 0) + c.get("sp_providers", 0)
+    ctx.cov["evaluations"] = (c.get("cv_calls", 0) + c.get("rt_entry_points", 0) + c.get("ct_parses", 0) + c.get("cl_invocations", 0) + c.get("sp_providers", 0) + c.get("km_calls", 0) + c.get("rg_function_calls", 0)
+                              + c.get("rg_cli_invocations", 0)
                               + c.get("ct_validations", 0) + c.get("sv_verifications", 0) + c.get("sv_negative", 0)
                               + c.get("fl_flips", 0) + c.get("sh_verifications", 0) * 2)
     ctx.cov["dimensions"] = {
